@@ -33,7 +33,7 @@ PARTIAL = [
     "dtypes outside); the theorems are equalities in the absence of missing-value promotion, `Kind.promotes`/`SchPromotes` is the tolerated "
     "relation (C07_promotion_frame) and is applied by the harness when comparing computed partitions; value-dependent inference on empty "
     "partitions is tolerated by the harness only",
-    "thorough tier: the end-to-end support loop runs 1300 seeded programs x 5 layouts (was 2500) so that the tier, together with the "
+    "thorough tier: the end-to-end support loop runs 1000 seeded programs x 5 layouts (was 2500) so that the tier, together with the "
     "~3 min of the new families, stays within 15 min; the quick tier is unchanged (must-run list + 30 seeded programs x 2 layouts)",
     "operators outside the model (user functions, rolling/cumulative, binary arithmetic, astype, categorical/str/dt accessors, index "
     "merges, multi-function agg specs, split_out>1 shuffle reductions, concat of inputs with different numbers of index levels) are opaque "
@@ -434,14 +434,19 @@ def dkind(dt):
     return {"i": "int", "u": "int", "f": "float", "b": "bool", "M": "dt", "m": "td", "O": "str", "U": "str", "T": "str"}.get(k, "obj")
 
 
+def _label(v):
+    """labels are compared as Python values: the int 1 and the string '1' are different labels"""
+    return v if isinstance(v, str) else f"<{type(v).__name__}:{v!r}>" if v is not None else "None"
+
+
 def schema_of(x):
     k = kind_of(x)
     if k == "frame":
-        return (k, tuple(map(str, x.columns)), str(x.index.name), tuple(dkind(t) for t in x.dtypes))
+        return (k, tuple(map(_label, x.columns)), _label(x.index.name), tuple(dkind(t) for t in x.dtypes))
     if k == "series":
-        return (k, str(x.name), str(x.index.name), (dkind(x.dtype),))
+        return (k, _label(x.name), _label(x.index.name), (dkind(x.dtype),))
     if k == "index":
-        return (k, str(x.name), None, (dkind(x.dtype),))
+        return (k, _label(x.name), None, (dkind(x.dtype),))
     return (k, None, None, ())
 
 
@@ -542,6 +547,12 @@ def _extra_queries():
 
     qs.append(("from_map_empty_selection", lambda dx_: fm(dx_, A)[[]]))
     qs.append(("from_map_concat_foreign_column", lambda dx_: dx_.concat([fm(dx_, A), fm(dx_, B)])[["d"]]))
+    # non-string labels through the shuffle-based groupby UDF path (the lowering stringifies labels for the shuffle and
+    # has to map them back), grouped by a Series expression, no meta= given
+    ints = pd.DataFrame({0: [0, 1, 0, 1, 2, 2, 3, 3], 1: [1, 2, 3, 4, 5, 6, 7, 8], 2: [0.5, 1.5, 2.5, 3.5, 4.5, 5.5, 6.5, 7.5]})
+    qs.append(("gb_series_key_int_name_apply", lambda dx_: (lambda d: d[1].groupby(d[0] % 2).apply(lambda s: s + 1))(dx_.from_pandas(ints, npartitions=3))))
+    qs.append(("gb_series_key_int_name_transform", lambda dx_: (lambda d: d[1].groupby(d[0] % 2).transform(lambda s: s - s.mean()))(dx_.from_pandas(ints, npartitions=3))))
+    qs.append(("gb_series_key_int_cols_shift", lambda dx_: (lambda d: d[[1, 2]].groupby(d[0] % 2).shift(1))(dx_.from_pandas(ints, npartitions=3))))
     qs.append(("set_index_drop_false_head", lambda dx_: dx_.from_pandas(plain, npartitions=3).set_index("x", drop=False).head(3, compute=False)))
     # D89 (fixed): row-wise concat of inputs with different index names / series names
     A2 = pd.DataFrame({"a": [1, 2]}, index=pd.Index([1, 2], name="i"))
@@ -631,7 +642,7 @@ def _cases(ctx):
         "merge_left", "merge_outer_sfx", "concat", "concat_axis1", "set_index_a/id", "reset_index_keep/id", "gb_agg",
         "rename_aA/prefix/id", "filt_cnull/sum", "astype_f/id", "shift1/id", "cumsum/id", "dropna/col0", "head3/index",
         "filt_a/vc_last", "assign_z/gb_sum", "where", "two_shifts")]
-    return must + plans.seeded_slice(ctx, progs, 30 if ctx.quick else 1300)
+    return must + plans.seeded_slice(ctx, progs, 30 if ctx.quick else 1000)
 
 
 def families(ctx):
